@@ -77,7 +77,7 @@ void *vf_arena_alloc (size_t n) {
 }
 
 /* ------------------------------------------------------------------ registry */
-struct obj { const char *base; size_t size; int kind; int idx; int live; int owner; long owner_call; char name[40]; };
+struct obj { const char *base; size_t size; int kind; int idx; int live; int owner; long owner_call; char name[40]; int unl; };
 static struct obj objs[4096]; static int nobjs;
 static int kind_count[16];
 int vf_next_index (int kind) { return (kind_count[kind]++); }
@@ -368,6 +368,7 @@ void vf_store (nsync_atomic_uint32_ *p, uint32_t v, int ord, const char *file, i
 	old = *(volatile uint32_t *) p;
 	*(volatile uint32_t *) p = v;
 	vf_log ("atm %s/%d/%s st %s %s - %u %u -", file, k, func, ordname[ord], loc_name (p, func, expr, lb, sizeof (lb)), v, old);
+	if (v == 1 && has (expr, "waiting") && has (func, "nsync_cv_wait_with_deadline_generic")) { struct obj *wo = find_obj (p); if (wo != NULL) { wo->unl = 0; } }
 	note_op (1);
 }
 int vf_cas (nsync_atomic_uint32_ *p, uint32_t o, uint32_t n, int ord, const char *file, int k, const char *func, const char *expr) {
@@ -377,6 +378,14 @@ int vf_cas (nsync_atomic_uint32_ *p, uint32_t o, uint32_t n, int ord, const char
 	ok = (obs == o);
 	if (ok) { *(volatile uint32_t *) p = n; }
 	vf_log ("atm %s/%d/%s cas %s %s %u %u %u %d", file, k, func, ordname[ord], loc_name (p, func, expr, lb, sizeof (lb)), o, n, obs, ok);
+	if (ok && has (expr, "remove_count")) {
+		/* who unlinked this pooled cv waiter: a signaller/broadcaster (1) or the waiter itself on timeout (2) */
+		struct obj *wo = find_obj (p);
+		if (wo != NULL && wo->kind == K_WAITER) {
+			if (has (func, "nsync_cv_signal") || has (func, "nsync_cv_broadcast")) { wo->unl = 1; }
+			else if (has (func, "nsync_cv_wait_with_deadline_generic")) { wo->unl = 2; }
+		}
+	}
 	note_op (ok);
 	return (ok);
 }
@@ -445,6 +454,13 @@ void vf_api_leave (void) {
 	}
 }
 void vf_sched_note (void) { sched_point (); }
+/* 1 if the pooled waiter this fiber used in its last cv wait was unlinked from the cv queue by a signaller or broadcaster */
+int vf_my_waiter_unlinked_by_waker (void) {
+	struct obj *o;
+	if (cur < 0 || fibers[cur].ptw == NULL) { return (0); }
+	o = find_obj (fibers[cur].ptw);
+	return (o != NULL && o->unl == 1);
+}
 
 /* ------------------------------------------------------------------ semaphores */
 static int64_t time_to_ns (nsync_time t) {
